@@ -5,6 +5,7 @@ import (
 	"context"
 	"fmt"
 	"io"
+	"os"
 	"runtime"
 	"strings"
 	"time"
@@ -232,6 +233,13 @@ func c13Case(c *checker, api string, t byte, b []byte) {
 	if elapsed > time.Second {
 		c.oracle("C13 work not linear in the input size", key, fmt.Sprintf("took %.2fs", elapsed.Seconds()),
 			fmt.Sprintf("N=%d bytes; bound 1s", n))
+		slowCases++
+		if slowCases >= 3 { // every further case would be as slow: report what was found and stop
+			c.flushCost()
+			c.rep.Rule = "stopped early after 3 inputs whose decoding took more than 1 s each"
+			c.rep.Write(*out)
+			os.Exit(0)
+		}
 	}
 	if p != "" {
 		c.oracle("C13 panic", key, "panic "+p, "decoder panicked")
@@ -256,6 +264,8 @@ func c13Case(c *checker, api string, t byte, b []byte) {
 		c.pendCost = append(c.pendCost, pendingCost{op: modelOp, got: got, key: key, n: n})
 	}
 }
+
+var slowCases int
 
 type pendingCost struct {
 	op  string
